@@ -64,6 +64,10 @@ func main() {
 	flag.Parse()
 	rep = lib.NewReport(*prop, *tier, *seed)
 	knownList = lib.LoadKnown(*known, *prop)
+	if err := initPinned(*driver); err != nil {
+		fmt.Fprintln(os.Stderr, "harness failure:", err)
+		os.Exit(3)
+	}
 	if *replay != "" {
 		runReplay()
 		return
@@ -155,8 +159,8 @@ func main() {
 	}
 }
 
-// witnessLocateStep0 reproduces, safely, the deviation that keeps Locate on typed data with a step of 0
-// out of the case streams: with max = 2 the loop that never advances stops after two copies.
+// witnessLocateStep0: Locate on typed data with a step of 0 used not to return (before fa2ed77); the case
+// streams now run it, this bounded call keeps a regression from hanging the run unnoticed.
 func witnessLocateStep0() {
 	done := make(chan []string, 1)
 	go func() {
@@ -176,11 +180,15 @@ func witnessLocateStep0() {
 	case got := <-done:
 		rep.AddEval(1, 1)
 		if len(got) != 0 {
-			knownFinding("C11-locate-typed-step0", "locate:rslice.struct:step0", "Locate on a typed slice with step 0 (max 2) returns "+strings.Join(got, " ")+", Get returns nothing", c,
+			finding("violation", "locate:rslice.struct:step0", "Locate on a typed slice with step 0 (max 2) returns "+strings.Join(got, " ")+", Get returns nothing", c,
 				map[string]any{"rep": "rslice.struct", "evaluator": "locate", "impl": strings.Join(got, ";"), "max": 2})
 		}
 	case <-time.After(10 * time.Second):
+		// the stuck call keeps allocating: report the violation and end the run here
 		finding("violation", "locate:rslice.struct:step0-hang", "Locate on a typed slice with step 0 and max 2 does not return", c, nil)
+		rep.Rule = "run ended by a Locate call that does not return"
+		_ = rep.Write(*outPath)
+		os.Exit(0)
 	}
 }
 
@@ -485,7 +493,7 @@ func (w *worker) runC05(c *Case, pw, dw string) error {
 			continue
 		}
 		tie := same(g.vals, model, ord)
-		if !tie && !ord && c.p.descentAfterFrag() {
+		if !tie && !ord && c.p.descentAfterFrag() && pinned('s') {
 			// which of several containers is descended into (descentSiblings) depends on Go's map order
 			if id, err := w.unorderedSiblings(c, pw, dw, query{"get", r.String(), pinnedFlags}, g.vals); err != nil {
 				return err
@@ -520,7 +528,7 @@ func (w *worker) runC05(c *Case, pw, dw string) error {
 	// the leading `$` is optional
 	if len(c.p) > 0 {
 		g, gb := goGet(x, simple), goGet(c.p.expr(false), simple)
-		if !ordSimple && c.p.descentAfterFrag() {
+		if !ordSimple && c.p.descentAfterFrag() && pinned('s') {
 			// two runs may differ (descentSiblings with Go's map order)
 		} else if g.panic != gb.panic || !same(g.vals, gb.vals, ordSimple) {
 			finding("violation", "root-prefix", "Get differs with and without the leading $", c, map[string]any{"rooted": g.String(), "bare": gb.String()})
@@ -529,33 +537,45 @@ func (w *worker) runC05(c *Case, pw, dw string) error {
 	return nil
 }
 
-// allFlags are the deviation flags of the model (Cfg); "P" is the pinned configuration (all of them
-// until a proposed fix is applied and Cfg.pinned is updated). VERIF_FIXED=<letters> runs the check with
-// those flags off (to try the harness against a tree patched with a proposed fix).
+// allFlags are the deviation flags of the model (Cfg). "P" is the pinned configuration, the model of the
+// code as it is; the driver tells which flags it has on (pinnedLetters). VERIF_FIXED=<letters> runs the
+// check with those flags off as well (to try the harness against a tree patched with a proposed fix).
 const allFlags = "esncyowurlzmtfghda"
 
-var pinnedFlags = func() string {
-	off := os.Getenv("VERIF_FIXED")
-	if off == "" {
-		return "P"
+var pinnedLetters = allFlags // set from the driver at start-up
+var pinnedFlags = "P"
+
+func initPinned(exe string) error {
+	d, err := lib.StartDriver(exe)
+	if err != nil {
+		return err
 	}
-	s := allFlags
-	for i := 0; i < len(off); i++ {
-		s = strings.ReplaceAll(s, string(off[i]), "") // ('i' is not a model flag: see unmodelled)
+	defer d.Close()
+	ans, err := d.Ask1("pinned")
+	if err != nil {
+		return err
 	}
-	if s == "" {
-		return "-"
+	if ans == "bad-op" {
+		return fmt.Errorf("driver does not answer the pinned op")
 	}
-	return s
-}()
+	pinnedLetters = ans
+	if off := os.Getenv("VERIF_FIXED"); off != "" {
+		for i := 0; i < len(off); i++ {
+			pinnedLetters = strings.ReplaceAll(pinnedLetters, string(off[i]), "")
+		}
+		pinnedFlags = pinnedLetters
+		if pinnedFlags == "" {
+			pinnedFlags = "-"
+		}
+	}
+	return nil
+}
+
+func pinned(f byte) bool { return strings.IndexByte(pinnedLetters, f) >= 0 }
 
 func without(f byte) string {
-	s := allFlags
-	if pinnedFlags != "P" {
-		s = pinnedFlags
-	}
-	s = strings.ReplaceAll(s, string(f), "")
-	if s == "" || s == "-" {
+	s := strings.ReplaceAll(pinnedLetters, string(f), "")
+	if s == "" {
 		return "-"
 	}
 	return s
@@ -823,16 +843,10 @@ func (w *worker) runC11(c *Case, pw, dw string) error {
 			case "get":
 				o = goGet(x, data)
 			case "first":
-				o = goFirst(x, data, ord && !(c.p.descentAfterFrag() && !ordSimple))
+				o = goFirst(x, data, ord && !(pinned('s') && c.p.descentAfterFrag() && !ordSimple))
 			case "has":
 				o = goHas(x, data)
 			case "locate":
-				if r.typed() && c.p.hasZeroStep() {
-					// Locate on a reflected slice does not test for step 0 and never returns (max = 0):
-					// not run; the deviation is reproduced once, with max > 0, by witnessLocateStep0
-					rep.Count("skipped.locate_typed_step0", 1)
-					continue
-				}
 				o = goLocate(x, data, c.t, r.OK == "struct")
 			case "walk":
 				o = goWalk(x, data, c.t, r.OK == "struct")
@@ -866,7 +880,8 @@ func (w *worker) runC11(c *Case, pw, dw string) error {
 		rep.Sample(map[string]any{"path": c.p.String(), "data": dw, "get": G.String(), "locate": runs[3].o.String(), "model_locate": ans[3]})
 	}
 	rep.Count(fmt.Sprintf("results.%d", min(len(G.vals), 4)), 1)
-	unordG := !ordSimple && c.p.descentAfterFrag() // Go Get itself depends on the map order here (descentSiblings)
+	sib := pinned('s')
+	unordG := sib && !ordSimple && c.p.descentAfterFrag() // Go Get itself depends on the map order here (descentSiblings)
 	for i, ru := range runs {
 		m := modelOut(qs[i].op, ans[i])
 		desc := map[string]any{"rep": ru.r.String(), "evaluator": ru.ev, "impl": ru.o.String(), "impl_found": ru.o.found, "impl_val": ru.o.val,
@@ -874,7 +889,7 @@ func (w *worker) runC11(c *Case, pw, dw string) error {
 		class := ru.ev + ":" + ru.r.String()
 		tie := tied(ru.ev, ru.o, m, ru.ord && !(ru.ev == "locate" && ru.r.typed())) // Locate visits struct fields back to front
 		ok, why := agrees(ru.ev, ru.o, G.vals, ordSimple)
-		if (!tie || !ok) && (unordG || !ru.ord && c.p.descentAfterFrag()) && ru.o.panic == "" && ru.o.bad == "" {
+		if (!tie || !ok) && (unordG || sib && !ru.ord && c.p.descentAfterFrag()) && ru.o.panic == "" && ru.o.bad == "" {
 			// results that depend on Go's map order through the descentSiblings deviation: compare with the
 			// model without that flag — nothing may be reported that the repaired evaluator would not report
 			full, err := w.ask(c, pw, dw, []query{{qs[i].op, qs[i].rep, without('s')}, {"get", "any.map", without('s')}})
@@ -900,15 +915,6 @@ func (w *worker) runC11(c *Case, pw, dw string) error {
 				continue
 			}
 		}
-		if id := unmodelled(ru.ev, ru.r, c.p); id != "" {
-			// a listed deviation whose effect (a stale variable, a missing stack marker) the model does not
-			// reproduce: no tie in this class; a disagreement with Get is that known finding
-			rep.Count("unmodelled."+id, 1)
-			if !ok {
-				knownFinding(id, class+":unmodelled", "evaluator does not agree with Get: "+why, c, desc)
-			}
-			continue
-		}
 		if !tie {
 			finding("disagreement", "model-"+ru.ev+":"+ru.r.String(), "the evaluator and its model differ", c, desc)
 		}
@@ -932,26 +938,6 @@ func (w *worker) runC11(c *Case, pw, dw string) error {
 	return nil
 }
 
-// unmodelled names the known finding for (evaluator, representation, path) classes in which the code's
-// behaviour depends on state the model does not carry.
-func unmodelled(ev string, r Rep, p Path) string {
-	fixed := os.Getenv("VERIF_FIXED") // 'l': the node.go fix, 'i': the FirstFound/Indexed fix is in the tree under test
-	switch {
-	case ev == "firstnode" && p.hasIntUnion() && !strings.Contains(fixed, "l"):
-		// node.go FirstNode, Union: `v` keeps whatever an earlier fragment or member left in it when an
-		// index member is out of range, and that stale value is returned or pushed
-		return "C11-firstnode-union"
-	case ev == "first" && r.AK == "indexed" && p.has('d') && !strings.Contains(fixed, "i"):
-		// get.go FirstFound, Descent on an Indexed: the node is not put back and no markers are pushed, so
-		// the descent degenerates to "the container elements of the node"
-		return "C11-first-indexed-descent"
-	}
-	return ""
-}
-
-// explainC11 decides whether a disagreement between an evaluator and Get is one of the listed
-// deviations: with every deviation flag off the model of the evaluator agrees with the model of Get
-// (that is the theorem), and the flags whose removal changes either answer name the deviation.
 // flagsFor lists the deviation flags that can touch an evaluator (Get on the simple data, the other side
 // of every comparison, is touched by e and s).
 var flagsFor = map[string]string{
